@@ -1,4 +1,5 @@
 import SnaxVerif.Lemmas.SetupVals
+import SnaxVerif.Lemmas.SetupValsPhs
 /-!
 # C08 — generated configuration values line up with field names
 
@@ -130,6 +131,59 @@ theorem loopcount_alu_fails : ¬ loopcount_alu_statement .repo := by
     { dims := [(2, 8), (3, 16)], ss := [8] } rfl rfl
   simp [prodI] at this
 
+/-! ## snax_alu, legacy linalg path — a table written for the default configuration (DC08a otherwise) -/
+
+def aligned_alu_linalg_statement : Prop :=
+  ∀ cfg : List Streamer, AlignedAt aluLinalgMeaning (aluFields cfg) aluLinalgVals
+
+/-- clause `hdefault`: the accelerator has the default streamer configuration -/
+theorem aligned_alu_linalg_partial (cfg : List Streamer) (hdefault : cfg = aluDefault) :
+    AlignedAt aluLinalgMeaning (aluFields cfg) aluLinalgVals := by
+  subst hdefault
+  exact Aligned.index (m := aluLinalgMeaning)
+    (by simp [Aligned, aluLinalgMeaning, aluLinalgVals, aluFields, aluDefault, streamerFields, streamerBlockFields,
+          transposeField, bcastField, Streamer.has, List.zipIdx, List.range, List.range.loop]
+        refine ⟨?_, ?_, ?_, ?_, ?_, ?_, ?_, ?_, ?_, ?_, ?_, ?_, ?_, ?_, ?_, ?_, ?_⟩ <;> rfl)
+
+/-- DC08a: a configurable ALU with two temporal dimensions per streamer declares 20 fields, the legacy path still
+emits its 17 values. -/
+theorem alu_linalg_other_config_fails : ¬ aligned_alu_linalg_statement := by
+  intro h
+  have := (h [ { tdims := [.n, .n], sdims := [4], opts := [] }, { tdims := [.n, .n], sdims := [4], opts := [] },
+               { tdims := [.n, .n], sdims := [4], opts := [] } ]).1
+  revert this
+  decide
+
+/-! ## snax_phs — streamer registers, one `phs_switch_i` per true switch of the processing element, loop bound -/
+
+def aligned_phs_statement (v : Variant) : Prop :=
+  ∀ (cfg : List Streamer) (op : StreamOp) (A : Phs.PE) (K : Except Phs.Err Phs.PE) (vs : List Val),
+    A.wf = true → phsVals v cfg op A K = .ok vs →
+    ∃ k sw, K = .ok k ∧ Phs.decode A k = .ok sw ∧ AlignedAt (phsMeaning cfg op sw) (phsFields cfg A) vs
+
+/-- Repaired tree (FC08c), for EVERY streamer configuration, pattern / operand list, processing element `A`
+satisfying the IR invariants `PE.wf` (C20) and kernel `K`: when the generator returns, the kernel was encoded and
+decoded, and the streamer registers, the `phs_switch_i` registers (exactly `get_true_switches()` of them — the
+count that used to be an assumption is `decode_length`, proved from the decoder model) and `loop_bound_alu` (=
+temporal steps of stream 0) line up with the values. -/
+theorem aligned_phs : aligned_phs_statement .fixed := by
+  intro cfg op A K vs hA h
+  obtain ⟨k, sw, hk, hd, hal⟩ := phsVals_aligned .fixed cfg op A K vs h hA (Or.inl rfl)
+  exact ⟨k, sw, hk, hd, hal.index⟩
+
+/-- any tree: clause `hsingle` as for snax_alu (D82: the same expression is in snax_phs.py) -/
+theorem aligned_phs_partial (v : Variant) (cfg : List Streamer) (op : StreamOp) (A : Phs.PE)
+    (K : Except Phs.Err Phs.PE) (vs : List Val) (hA : A.wf = true) (h : phsVals v cfg op A K = .ok vs)
+    (hsingle : v.loopAllDims = true ∨ ∀ p, op.pats[0]? = some p → p.dims.length = 1) :
+    ∃ k sw, K = .ok k ∧ Phs.decode A k = .ok sw ∧ AlignedAt (phsMeaning cfg op sw) (phsFields cfg A) vs := by
+  obtain ⟨k, sw, hk, hd, hal⟩ := phsVals_aligned v cfg op A K vs h hA hsingle
+  exact ⟨k, sw, hk, hd, hal.index⟩
+
+/-- the number of switch values is the number of `phs_switch_i` fields, for every well-formed element -/
+theorem phs_switch_count (A K : Phs.PE) (sw : List Nat) (hA : A.wf = true) (h : Phs.decode A K = .ok sw) :
+    (switchVals sw).length = ((List.range A.trueSwitches).map Field.phsSwitch).length := by
+  simp [switchVals, decode_length A K sw hA h]
+
 /-! ## snax_gemmx -/
 
 /-- full statement (false on the pristine tree and for short per-channel arrays) -/
@@ -224,8 +278,21 @@ theorem gemmx_mac_params (v : Variant) (n : Nat) (op : GemmxOp) (P : GParams) (z
         P.csr0 = csr0Val (effRescale n op).minI (effRescale n op).maxI (effRescale n op).outZp (effRescale n op).inZp) := by
   obtain ⟨last, p0, h1, h2, h3, _, h5, h6, h7⟩ := gemmxParams_mac_inv v n op P zp hk h
   refine ⟨last, p0, h1, h2, h3, h5, h6, fun hi => ?_⟩
-  obtain ⟨_, _, _, hm, ht, hb, hc1, hc0⟩ := h7 hi
+  obtain ⟨_, _, _, hm, ht, hb, hc1, hc0, _⟩ := h7 hi
   exact ⟨hm, ht, hb, hc1, hc0⟩
+
+/-- Channel-wise requantisation with more channels than columns loses nothing: whenever the trailing rescale has
+more than `n` multipliers, the complete multiplier array as written and `M` are attached to the launch (the
+registers carry the first `n` channels, `gemmx_mac_params`). -/
+theorem gemmx_channels_not_lost (v : Variant) (n : Nat) (op : GemmxOp) (P : GParams) (zp : Option (Nat × Nat))
+    (hk : op.kernel = .mac zp) (hi : op.i8out = true) (h : gemmxParams v n op = .ok P) (r : Rescale)
+    (hr : op.post = some r) (hlong : n < (bcastN n r.mults).length) :
+    ("mult_vals", r.mults) ∈ P.attrs ∧ ("m", [P.m]) ∈ P.attrs := by
+  obtain ⟨_, _, _, _, _, _, _, _, h7⟩ := gemmxParams_mac_inv v n op P zp hk h
+  obtain ⟨sh, _, _, _, _, _, _, _, hat⟩ := h7 hi
+  have he : (effRescale n op).mults = bcastN n r.mults := by simp [effRescale, hr]
+  rw [hat, he]
+  simp [launchAttrs, hr, hlong]
 
 /-- full statement: the kernel loop counts multiply to the number of temporal steps of stream A -/
 def loopcount_gemmx_statement : Prop :=
